@@ -236,6 +236,18 @@ func runCheck(prop, tier string) int {
 	if spec.Runs != nil {
 		runs = spec.Runs(tier)
 	}
+	if only := os.Getenv("VERIF_ONLY_RUNS"); only != "" { // experiments only: a comma-separated list of run names
+		var keep []RunSpec
+		for _, r := range runs {
+			for _, n := range strings.Split(only, ",") {
+				if r.Name == n {
+					keep = append(keep, r)
+				}
+			}
+		}
+		runs = keep
+		spec = &CheckSpec{Prop: spec.Prop, Runs: spec.Runs}
+	}
 	for ri, rs := range runs {
 		t0 := time.Now()
 		// split the remaining budget evenly over the remaining runs
